@@ -87,9 +87,12 @@ def write_md(results):
         if e.get("neutralised_by"):
             note = ("neutralised by " + e["neutralised_by"] + ". " + note).strip()
         st = e["status"]
+        if st == "missed" and e.get("neutralised_by"):
+            # confirmed separately: with the patch applied to HEAD the seed's own demonstration passes
+            st = "no longer a fault on HEAD"
         n[st if st in n else "other"] += 1
         lines.append(f"| {sid} | {e['patch']} | {st} | {det.replace('|', '/')} | {note.replace('|', '/')} |")
-    lines += ["", f"Summary: {n['detected']} detected, {n['missed']} missed, {n['other']} not applicable to HEAD (of {len(results)})."]
+    lines += ["", f"Summary: {n['detected']} detected, {n['missed']} missed, {n['other']} neutralised by a later fix: commit (patch does not apply, or its own demonstration passes with the patch on HEAD) (of {len(results)})."]
     open(f"{SEEDED}/RESULTS.md", "w").write("\n".join(lines) + "\n")
 
 
@@ -123,4 +126,15 @@ def main():
 
 
 if __name__ == "__main__":
-    main()
+    if sys.argv[1:] == ["--md"]:
+        res = json.load(open(f"{SEEDED}/results.json"))
+        for sid in res:
+            mp = f"{SEEDED}/{sid}/meta.json"
+            if os.path.exists(mp):
+                m = json.load(open(mp))
+                for k in ("neutralised_by", "note"):
+                    if m.get(k):
+                        res[sid][k] = m[k]
+        write_md(res)
+    else:
+        main()
